@@ -270,6 +270,9 @@ def run(ctx):
                 return "default.clifford:probs-wire-order"
             if "default.clifford" in mech and "AttributeError" in mech and "var" in kinds:
                 return "default.clifford:var-missing-kwargs"
+            if "default.tensor" in mech and ":result:" in mech:
+                # a value mismatch of default.tensor alone that none of the root-caused mechanisms above explains
+                return "default.tensor:result-mismatch:unrooted"
             return mech
 
         def execute(name):
